@@ -117,6 +117,20 @@ def run(prop, tier, seed):
             f = (lambda c, a, h: lambda x: sum(float(ck) * ((x - a) / h) ** k for k, ck in enumerate(c)))(c, a, h)
             e = exact(c, h)
             add(routine, n, "exact-after-other-orders", deg, call(f, a, a + h), e, TOL * abs(e), {"constructed_as": [n14, n12]})
+    # several objects alive at once: all constructed first (descending and mixed orders), used afterwards -- an object must
+    # not be affected by objects constructed after it
+    for orders in ((23, 21, 15, 9, 5, 3), (5, 13, 21, 7)):
+        objs = [(n, Slobodeckij(n, min(n, 21))) for n in orders]
+        for n, sx in objs + objs[::-1]:
+            for routine, call, exact, nn in (("h14", sx.seminorm_h_1_4, sr.h14, n), ("h12", sx.seminorm_h_1_2, sr.h12, min(n, 21))):
+                deg = (nn - 1) // 2
+                if deg < 1:
+                    continue
+                a, h = interval()
+                c = rand_poly(rng, deg)
+                f = (lambda c, a, h: lambda x: sum(float(ck) * ((x - a) / h) ** k for k, ck in enumerate(c)))(c, a, h)
+                e = exact(c, h)
+                add(routine, nn, "exact-with-other-objects-alive", deg, call(f, a, a + h), e, TOL * abs(e), {"constructed_together": list(orders)})
     # short intervals far from the origin (tolerance 1e-6: the test function itself is only evaluated to ~1e-10 there)
     for N in (5, 13):
         sx = Slobodeckij(N)
